@@ -378,6 +378,14 @@ func (r *c07Runner) render(method string, err error, pe jschema.ParsingError, ve
 		if e, ok := ke.(error); ok {
 			_ = e.Error()
 		}
+		// the converted error still refers to the same place: the position keeps its file
+		if isDoc && pe != nil {
+			r.notes["kit.ConvertError: position and file compared with the error's own"]++
+			if ke.Position() != de.Position() || ke.Filename() != de.Filename() || ke.ErrCode() != pe.ErrCode() {
+				r.find("position", method, fmt.Sprintf("kit.ConvertError gives (file %q, position %d, code %d), the error itself (file %q, position %d, code %d)",
+					ke.Filename(), ke.Position(), ke.ErrCode(), de.Filename(), de.Position(), pe.ErrCode()))
+			}
+		}
 	})
 }
 
